@@ -92,6 +92,7 @@ type HSpec struct {
 	WaitMid     string // after the entry frames and before the final response: block until Notes[WaitMid] > 0
 	Fan         int    // the entry frames are written by this many goroutines of the handler through the one ResponseWriter
 	Ctl         string // attach the scenario's shared control object of this kind to the final response (bind, search)
+	Sleep       int    // the handler works for this many virtual seconds before it writes
 }
 
 type logCapture struct {
@@ -254,6 +255,9 @@ func (w *World) handler(route string) gldap.HandlerFunc {
 		}
 		for i := 0; i < sp.Yields; i++ {
 			vrt.Yield()
+		}
+		if sp.Sleep > 0 {
+			vrt.Sleep(secs(sp.Sleep))
 		}
 		if sp.Panic == "before" {
 			vrt.Atomic(func() { w.Notes["panicked"]++ })
@@ -550,7 +554,9 @@ type Cl struct {
 	Name    string
 	C       *vnet.Client
 	NC      net.Conn // what the client reads/writes (C, or a tls.Client over C)
-	Got     []byte   // plaintext bytes received
+	Raw     bool     // the client has left its TLS session and reads the socket below it
+	RawTail []byte
+	Got     []byte // plaintext bytes received
 	Frames  [][]byte
 	ReadErr error
 	EOF     bool
@@ -598,6 +604,22 @@ func (c *Cl) Send(b []byte) error {
 // ReadFrames reads until n whole frames have been received in total, or EOF / error.
 func (c *Cl) ReadFrames(n int) {
 	buf := make([]byte, 1<<16)
+	if c.Raw {
+		// what arrives now is not an LDAP stream for this client (TLS records read below the TLS layer): it is
+		// drained, not parsed (ciphertext is random; parsing it would make the number of steps random too)
+		for {
+			k, err := c.NC.Read(buf)
+			c.RawTail = append(c.RawTail, buf[:k]...)
+			if err != nil {
+				if err == io.EOF {
+					c.EOF = true
+				} else {
+					c.ReadErr = err
+				}
+				return
+			}
+		}
+	}
 	for {
 		frames, _, ferr := codec.Frames(c.Got)
 		c.Frames = frames
